@@ -34,6 +34,6 @@ class HardenRuamel(SimpleCodemod):
 
     def on_result_found(self, original_node, updated_node):
         new_args = self.replace_args(
-            original_node, [NewArg(name="typ", value='"safe"', add_if_missing=False)]
+            updated_node, [NewArg(name="typ", value='"safe"', add_if_missing=False)]
         )
         return self.update_arg_target(updated_node, new_args)
